@@ -405,7 +405,7 @@ func vNil() VM { return func(v ssa.Value) bool { return isNilConst(v) } }
 func vParam(name string) VM {
 	return anyOrigin(func(v ssa.Value) bool {
 		p, ok := v.(*ssa.Parameter)
-		return ok && p.Name() == name
+		return ok && refParamName(p) == name
 	})
 }
 
@@ -892,14 +892,13 @@ func guardedBy(site ssa.Instruction, alts ...FP) (ok bool, nEdges int) {
 
 func guardedByDepth(site ssa.Instruction, depth int, alts ...FP) (ok bool, nEdges int) {
 	fn := site.Parent()
+	if okL, n := guardedLocal(site, depth, alts...); okL {
+		return true, n
+	}
 	cut := factEdgesAlts(fn, depth, alts...)
 	if len(cut) == 0 {
 		// the site may live in a virtually inlined helper: the guard can then sit at every call site
 		return guardedAtCallSites(site, depth, alts...)
-	}
-	r := reachable(fn, nil, cut)
-	if !r[site.Block()] {
-		return true, len(cut)
 	}
 	if ok2, n2 := guardedAtCallSites(site, depth, alts...); ok2 {
 		return true, len(cut) + n2
